@@ -39,7 +39,7 @@ def _setup(ctx):
     _setup_done = True
 
 
-def make_groups(grid_point, used):
+def make_groups(grid_point, used, spelling="hms"):
     batch, tb, wall, try_add, procs = grid_point
     groups = {}
     for name in ("A", "B"):
@@ -50,7 +50,7 @@ def make_groups(grid_point, used):
             "batch": batch if not tb else 0,
             "time_based": tb,
             "wall_min": wall,
-            "walltime": f"0:{wall:02d}:00",
+            "walltime": oracle_batch.WALLTIME_SPELLINGS[spelling](wall),
             "procs_opt": procs,
             "procs": procs,
             "try_add": try_add,
@@ -98,7 +98,10 @@ def run_case(jobs, groups, max_nodes, dry_run, wdir):
     os.chdir(wdir)
     err = None
     try:
-        mgr = JobSubmitter.create(cfg, output="out")
+        try:
+            mgr = JobSubmitter.create(cfg, output="out")
+        except Exception as e:  # refused up front (e.g. a --time spelling JADE does not parse): nothing is handed over
+            return {"err": None, "rejected": repr(e)[:160], "written": {}, "handed": [], "dry": [], "ncalls": len(_calls), "status": None}
         cluster = Cluster.create("out", mgr.config)
         ResultsAggregator.create("out")
         sub = HpcSubmitter(mgr.config, mgr._config_file, cluster, "out")
@@ -138,6 +141,10 @@ def judge(jobs, groups, max_nodes, res, viol, note):
         viol("double-placement", f"jobs {dup} placed in two batches of one round: {[h[0] for h in res['handed']]}")
     if max_nodes and res["ncalls"] > max_nodes:
         viol("max-nodes-single-round", f"{res['ncalls']} batches handed over in one round with max_nodes={max_nodes}")
+    if res.get("rejected"):
+        if res["ncalls"]:
+            viol("rejected-after-sbatch", f"configuration refused ({res['rejected']}) after {res['ncalls']} batches were handed over")
+        return placed
     if res["err"]:
         viol("round-crashed", f"the submitter round raised {res['err']}")
     elif not max_nodes or res["ncalls"] < max_nodes:
@@ -205,7 +212,9 @@ def random_case(rng):
     rng.shuffle(order)
     ng = rng.choice([1, 2])
     jobs = [(x, rng.randint(1, min(6, wall)), deps[x], rng.choice("AB"[:ng])) for x in order]
-    return jobs, gp, rng.choice([None, 1, 2, 3])
+    # how the walltime is spelled: canonical h:mm:ss, equivalent spellings, and spellings the scheduler accepts but JADE refuses
+    sp = rng.choice(["hms"] * 9 + ["hhms", "dhms", "h_m_s", "ms", "ms", "m"])
+    return jobs, gp, rng.choice([None, 1, 2, 3]), sp
 
 
 def chunk(args, ctx, wdir):
@@ -218,7 +227,7 @@ def chunk(args, ctx, wdir):
     hashes = []
     nt_hashes = []
     samples = []
-    ncases = nbatches = ndry = 0
+    ncases = nbatches = ndry = nrejected = 0
     if args["scope"] == "random":
         rng = random.Random(args["seed"])
         gen = (random_case(rng) for _ in range(args["count"]))
@@ -226,17 +235,23 @@ def chunk(args, ctx, wdir):
     else:
         gen = enumerate_cases(args["scope"])
         sel = lambda i: i % args["nchunks"] == args["chunk"]
-    for i, (jobs, gp, mn) in enumerate(gen):
+    nspell = {}
+    for i, case in enumerate(gen):
         if not sel(i):
             continue
+        jobs, gp, mn = case[:3]
+        spelling = case[3] if len(case) > 3 else "hms"
         used = {j[3] for j in jobs}
-        groups = make_groups(gp, used)
+        groups = make_groups(gp, used, spelling)
+        nspell[spelling] = nspell.get(spelling, 0) + 1
         res = run_case(jobs, groups, mn, False, wd)
         ncases += 1
         nbatches += res["ncalls"]
-        h = hashlib.sha1(json.dumps([jobs, gp, mn]).encode()).hexdigest()[:12]
+        h = hashlib.sha1(json.dumps([jobs, gp, mn, spelling]).encode()).hexdigest()[:12]
+        if res.get("rejected"):
+            nrejected += 1
         hashes.append(h)
-        case_desc = {"jobs": [f"{n}({e}min)<-{','.join(b)} [{g}]" for n, e, b, g in jobs], "group_params": {"batch": gp[0], "time_based": gp[1], "wall_min": gp[2], "try_add": gp[3], "procs": gp[4]}, "max_nodes": mn}
+        case_desc = {"jobs": [f"{n}({e}min)<-{','.join(b)} [{g}]" for n, e, b, g in jobs], "group_params": {"batch": gp[0], "time_based": gp[1], "wall_min": gp[2], "walltime": groups["A"]["walltime"], "try_add": gp[3], "procs": gp[4]}, "max_nodes": mn}
 
         def viol(key, text, _c=case_desc):
             violations.append({"prop": "C07" if key != "double-placement" else "C01", "key": key, "text": f"{text} | case {json.dumps(_c)}", "step": 0, "epoch": 0})
@@ -267,4 +282,4 @@ def chunk(args, ctx, wdir):
         if len(violations) > 200:
             break
     shutil.rmtree(wd, ignore_errors=True)
-    return {"violations": violations, "cases": ncases, "case_hashes": hashes, "nontrivial_hashes": nt_hashes, "samples": samples, "batches": nbatches, "dry_twins": ndry, "error": None}
+    return {"violations": violations, "cases": ncases, "case_hashes": hashes, "nontrivial_hashes": nt_hashes, "samples": samples, "batches": nbatches, "dry_twins": ndry, "error": None, "walltime_spellings": nspell, "refused_up_front": nrejected}
